@@ -768,7 +768,7 @@ func (g *gctx) special(d int) string {
 	dyn := func() string { // something that makes the scope dynamic or captures bindings
 		return g.pick(`eval("")`, `eval("`+v+`")`, `eval("var `+w+` = 1")`, "(() => "+v+")()", "with (o) { "+v+" }", "(function() { return "+v+" })()", "0")
 	}
-	switch g.r.Intn(22) {
+	switch g.r.Intn(23) {
 	case 0, 1: // switch + lexical declaration + dynamic scope / closures
 		decl := g.pick("let "+v+" = "+e(), "const "+v+" = "+e(), "class "+v+" {}", "let ["+v+"] = [1]", "function "+v+"() {}", "let "+v)
 		if g.strict && strings.Contains(decl, "function") {
@@ -842,9 +842,12 @@ func (g *gctx) special(d int) string {
 	case 13, 14: // destructuring heads of for-in / for-of with closures capturing some of the bindings
 		kw := g.pick("let", "const", "var")
 		pat := g.pick("["+v+", "+w+"]", "{p: "+v+", q: "+w+"}", "["+v+", {r: "+w+"} = {}]", "{"+v+" = 1, ..."+w+"}", "["+v+" = () => "+w+", "+w+"]", "["+v+", ..."+w+"]", "{length: "+v+", [0]: "+w+"}")
-		src := g.pick("[[1, 2], [3, 4]]", "[o, o.q]", "[\"ab\", \"cd\"]", "new Map([[1, 2]])", "o", "arr")
+		src := g.pick("[[1, 2], [3, 4]]", "[o, o.q]", "[\"ab\", \"cd\"]", "new Map([[1, 2]])", "o", "arr",
+			// closures inside the SOURCE expression that capture some / all of the head's bindings (TDZ scope of the head)
+			"[[() => "+v+", 2]]", "[[() => "+w+", () => "+v+"]]", "[{p: () => "+w+", q: 1}]", "[[function() { return "+v+" }, [1]]]", "{k: () => "+w+"}",
+			"[[1, 2]].map(q => [() => "+v+", q])", "(() => [["+g.pick(v, w, "1")+", 2]])()")
 		of := "of"
-		if src == "o" {
+		if src == "o" || strings.HasPrefix(src, "{k:") {
 			of = "in"
 		}
 		cap := g.pick("fs.push(() => "+v+");", "fs.push(() => "+w+");", "(() => "+v+" + "+w+");", `eval("`+v+`");`, "", "fs.push(function() { return "+v+" });")
@@ -869,6 +872,25 @@ func (g *gctx) special(d int) string {
 	case 19: // class fields / static blocks / computed keys with side effects and super
 		return "try { class " + v + " extends " + g.pick("Object", "f", "null", "(class { constructor() { this.b = 1 } })") + " { [" + e() + "] = " + e() + "; static [" + e() + "] = " + g.pick("this", "super.x", "new.target", e()) +
 			"; static { " + g.pick("super.x = 1;", "this.y = () => super.z;", "try { "+v+"; } finally { }", g.stmt(d-1)) + " } " + g.pick("constructor() { "+g.pick("super();", "super(...arr);", "return o;", "(() => super())();", "")+" }", "") + " } new " + v + "; } catch (e) {}"
+	case 21: // a labelled block between a loop and a try statement whose handlers both continue the loop and break to the label
+		jmp := func() string {
+			return g.pick("if ("+g.pick("y", "x", "1", "0")+") continue; break L"+v+";", "continue;", "break L"+v+";", "if (y++) break L"+v+"; continue;", "if (y) continue; else break L"+v+";", "")
+		}
+		inner := "try { " + g.pick("", "throw 1;", jmp(), e()+";") + " } " + g.pick("", "catch (e) { "+jmp()+" } ") + "finally { " + jmp() + " }"
+		if g.r.Chance(30) {
+			inner = "try { " + inner + " } finally { " + jmp() + " }"
+		}
+		body := "{ L" + v + ": { " + inner + " } }"
+		switch g.r.Intn(4) {
+		case 0:
+			return "do " + body + " while (" + g.pick("0", "y++ < 2") + ");"
+		case 1:
+			return "for (var i" + v + " = 0; i" + v + " < 2; i" + v + "++) " + body
+		case 2:
+			return "for (var k" + v + " of arr) " + body
+		default:
+			return "{ let n" + v + " = 0; while (n" + v + "++ < 2) " + body + " }"
+		}
 	case 20: // labelled blocks, break out of try/finally, nested finally
 		return "L" + v + ": { try { try { " + g.pick("break L"+v+";", "throw 1;", e()+";") + " } finally { " + g.pick("break L"+v+";", "y++;", "try { throw 2 } catch { }") + " } } catch (e) { " + g.pick("break L"+v+";", "") + " } finally { " + g.pick("", "y--;") + " } }"
 	default: // arguments object, rest, mapped arguments with eval
